@@ -1,7 +1,16 @@
 """C09 — The padding callback is obeyed and existing padding is reused."""
+import io
 import containers
+import formats as F
+import walkers
+from guards import timed
 import id3file_tie
 import iff_tie
+
+RULE_EXTRA = (" Plus: FLAC files with a leading ID3v2 tag saved with deleteid3=True (the space of the removed tag counts as available); "
+              "Ogg Vorbis streams whose comment packet was paged by another encoder (split at arbitrary 255-byte multiples, sharing its last "
+              "page with a setup packet that continues on the next page): an edit that fits the existing padding, saved with a callback "
+              "returning the offered padding or with the default policy, keeps the file size and every later byte in place.")
 
 RULE = ("random edit histories (set tiny/huge/empty/unicode values, save with default/0/n/keep padding, save through a fresh object, "
         "delete by method and by module function, reload) over every sample of every taggable format; after each save/delete an independent "
@@ -11,8 +20,136 @@ RULE = ("random edit histories (set tiny/huge/empty/unicode values, save with de
         "(format, sample, history index, step)")
 
 
+def flac_deleteid3(ctx):
+    """FLAC behind an ID3v2 tag, saved with deleteid3=True: what the callback is offered includes the space of the tag that goes"""
+    from mutagen.flac import FLAC
+    rng = ctx.rng
+    base = F.sample_bytes(ctx.repo, "silence-44-s.flac")
+    for n in ([250, 3000] if ctx.quick else [0, 1, 250, 3000, 70000]):
+        body = b"TIT2" + bytes([0, 0, 0, 2, 0, 0, 0, 0x61]) + b"\0" * n
+        sz = len(body)
+        id3 = b"ID3\x04\x00\x00" + bytes([(sz >> 21) & 0x7F, (sz >> 14) & 0x7F, (sz >> 7) & 0x7F, sz & 0x7F]) + body
+        data = id3 + base
+        for rule in (("keep",), ("const", 0), ("const", 77), ("default",)):
+            f = F.NamedBytesIO(data, "x.flac")
+            case = {"sub": "flac-deleteid3", "id3_size": len(id3), "rule": list(rule)}
+            try:
+                obj = FLAC(f)
+            except Exception as e:
+                ctx.notes.append("FLAC with ID3 prefix does not load: %s" % type(e).__name__); return
+            w0 = walkers.walk("FLAC", data)
+            rec = containers.PadRecorder(rule)
+            f.seek(0)
+            k, r = timed(lambda: obj.save(f, deleteid3=True, padding=rec), 20)
+            ctx.case(key=("flac-deleteid3", n, rule), nontrivial=True, modelled=False, sample=case if n == 250 and rule == ("keep",) else None)
+            ctx.hist["flac-deleteid3"] += 1
+            if k != "ok":
+                ctx.violation("FLAC:deleteid3:save-fails", repr(r)[:100], case); continue
+            out = f.getvalue()
+            w1 = walkers.walk("FLAC", out)
+            if out[:3] == b"ID3":
+                ctx.violation("FLAC:deleteid3:id3-kept", "the ID3v2 tag is still in front of the file", case); continue
+            audio0 = dict(w0.foreign).get("audio"); audio1 = dict(w1.foreign).get("audio")
+            if audio0 != audio1:
+                ctx.violation("FLAC:deleteid3:audio-changed", "audio differs", case)
+            if len(rec.seen) != 1:
+                ctx.violation("FLAC:padding-callback-calls", "padding callback called %d times" % len(rec.seen), case); continue
+            offered, size = rec.seen[0]
+            ans = rule[1] if rule[0] == "const" else (max(offered, 0) if rule[0] == "keep" else None)
+            if ans is not None and w1.padding != ans:
+                ctx.violation("FLAC:padding-not-obeyed", "callback answered %d, file has %d bytes of padding" % (ans, w1.padding), case)
+            # available = everything in front of the audio; needed = the blocks written apart from the padding payload
+            available = len(data) - len(audio0)
+            needed = len(out) - len(audio1) - (w1.padding or 0)
+            if offered != available - needed:
+                ctx.violation("FLAC:info.padding-wrong", "the callback was offered padding=%d; %d bytes precede the audio (ID3v2 tag "
+                              "included, it is being removed) and the new metadata needs %d, so %d remain"
+                              % (offered, available, needed, available - needed), case)
+            if rule[0] == "keep" and offered >= 0 and len(out) != len(data):
+                ctx.violation("FLAC:keep-not-inplace", "returning the offered padding resized the file (%d -> %d)" % (len(data), len(out)), case)
+
+
+def ogg_foreign_paging(ctx):
+    """Ogg Vorbis comment packets paged by 'another encoder'"""
+    from mutagen.ogg import OggPage
+    from mutagen.oggvorbis import OggVorbis
+    rng = ctx.rng
+    base = F.sample_bytes(ctx.repo, "empty.ogg")
+    f0 = io.BytesIO(base)
+    pages = []
+    while True:
+        try:
+            pages.append(OggPage(f0))
+        except EOFError:
+            break
+    serial = pages[0].serial
+    hdr_pages = []
+    for p in pages:
+        hdr_pages.append(p)
+        if p.serial == serial and len(OggPage.to_packets(hdr_pages, strict=False)) >= 3 and p.complete:
+            break
+    packets = OggPage.to_packets(hdr_pages)
+    if len(packets) < 3:
+        ctx.notes.append("ogg_foreign_paging: unexpected header layout"); return
+    rest = pages[len(hdr_pages):]
+    ident, comment, setup = packets[0], packets[1], packets[2]
+    for trial in range(ctx.budget(6, 40)):
+        pad = rng.choice([300, 800, 3000])
+        cm = comment + b"\0" * pad
+        cut1 = 255 * rng.randrange(1, max(2, len(cm) // 255))           # comment split over two pages at a lacing boundary
+        cut2 = 255 * rng.randrange(1, max(2, len(setup) // 255))         # setup starts on the comment's last page, continues
+        newp = []
+        def page(pk, complete, continued, seq):
+            q = OggPage(); q.serial = serial; q.sequence = seq; q.packets = pk; q.complete = complete; q.continued = continued
+            q.position = 0 if complete else -1
+            return q
+        p0 = page([ident], True, False, 0); p0.first = True
+        newp = [p0, page([cm[:cut1]], False, False, 1), page([cm[cut1:], setup[:cut2]], False, True, 2),
+                page([setup[cut2:]], True, True, 3)]
+        seq = 4
+        tail = []
+        for q in rest:
+            if q.serial == serial:
+                q2 = OggPage(); q2.serial = serial; q2.sequence = seq; q2.packets = list(q.packets); q2.complete = q.complete
+                q2.continued = q.continued; q2.position = q.position; q2.last = q.last
+                seq += 1
+                tail.append(q2)
+        try:
+            data = b"".join(q.write() for q in newp + tail)
+        except Exception as e:
+            ctx.hist["ogg-foreign-paging:cannot-build"] += 1; continue
+        w0 = walkers.walk("OggVorbis", data)
+        if w0.errors:
+            ctx.hist["ogg-foreign-paging:not-wellformed"] += 1; continue
+        for rule in (("keep",), ("default",)):
+            f = F.NamedBytesIO(data, "x.ogg")
+            case = {"sub": "ogg-foreign-paging", "padding_in_packet": pad, "cut1": cut1, "cut2": cut2, "rule": list(rule)}
+            k0, obj = timed(lambda: OggVorbis(f), 20)
+            if k0 != "ok":
+                ctx.hist["ogg-foreign-paging:load-fails"] += 1; continue
+            obj["title"] = ["fits the padding"]
+            rec = containers.PadRecorder(rule)
+            f.seek(0)
+            k, r = timed(lambda: obj.save(f, padding=(rec if rule[0] != "default" else None)), 20)
+            ctx.case(key=("ogg-foreign-paging", trial, rule), nontrivial=True, modelled=False, sample=case if trial == 0 else None)
+            ctx.hist["ogg-foreign-paging"] += 1
+            if k != "ok":
+                ctx.violation("OggVorbis:foreign-paging:save-fails", repr(r)[:100], case); continue
+            out = f.getvalue()
+            w1 = walkers.walk("OggVorbis", out)
+            if w1.errors:
+                ctx.violation("OggVorbis:foreign-paging:malformed", "; ".join(w1.errors[:2]), case)
+            if rule[0] == "keep" and rec.seen and rec.seen[0][0] >= 0 and len(out) != len(data):
+                ctx.violation("OggVorbis:keep-not-inplace", "returning the offered padding resized the file (%d -> %d bytes)" % (len(data), len(out)), case)
+            if rule[0] == "default" and pad <= 1024 and len(out) != len(data):
+                ctx.violation("OggVorbis:default-resizes-moderate-padding",
+                              "an edit that fits %d bytes of padding resized the file under the default policy (%d -> %d bytes)" % (pad, len(data), len(out)), case)
+
+
 def run(ctx):
-    containers.run_histories(ctx, {"padding"}, RULE)
+    containers.run_histories(ctx, {"padding"}, RULE + RULE_EXTRA)
+    flac_deleteid3(ctx)
+    ogg_foreign_paging(ctx)
     id3file_tie.run(ctx)
     iff_tie.run(ctx)
 
